@@ -36,6 +36,16 @@ Section Q.
     destruct p as [s|tok w| | |]; cbn [dq_inner_text]; try discriminate; reflexivity.
   Qed.
 
+  (* nor is a word made of literal quotings *)
+  Lemma word_text_not_at w t : word_text w = Some t -> only_at w = false.
+  Proof.
+    unfold only_at, word_text. destruct w as [|p w]; [reflexivity|]. cbn [map all_some length Nat.eqb negb forallb andb].
+    destruct p as [s|tok v| | |]; cbn [part_text]; try discriminate; reflexivity.
+  Qed.
+
+  Lemma quoted_at_only_literal e w t mode : word_text w = Some t -> quoted_at_only e w mode = false.
+  Proof. intros H. unfold quoted_at_only. rewrite (word_text_not_at w t H). apply Bool.andb_false_r. Qed.
+
   Lemma eq_dq f e v rest mode first fs : only_at v = false ->
     expand_parts (S f) e (WQuote 34 v :: rest) mode first fs =
     match expand f e v (N.lor (N.land mode mArith) mQuote) with
@@ -302,7 +312,7 @@ Section RoundTrip.
     word_text w = Some text -> w <> [] -> mode_ok e mode ->
     expand_top users glob e w mode = Ok (e, [expected mode text]).
   Proof.
-    intros Ht Hne Hm. unfold expand_top.
+    intros Ht Hne Hm. unfold expand_top. rewrite (quoted_at_only_literal e w text mode Ht).
     pose proof (wsize_le w) as Hsz.
     remember (4 * S (word_size w))%nat as fuel eqn:Ef.
     destruct fuel as [|fuel]; [lia|]. rewrite eq_expand.
@@ -346,7 +356,7 @@ Section RoundTrip.
     destruct (mbit mode mArith) eqn:EA0; [apply expand_literal_word; [exact Ht|exact Hne|right; right; left; exact EA0]|].
     destruct (mbit mode mQuote) eqn:EQ0; [apply expand_literal_word; [exact Ht|exact Hne|right; right; right; left; exact EQ0]|].
     destruct (opt_bit e Extracted.opt_NoGlob) eqn:EN; [apply expand_literal_word; [exact Ht|exact Hne|right; right; right; right; exact EN]|].
-    unfold expand_top.
+    unfold expand_top. rewrite (quoted_at_only_literal e w text mode Ht).
     pose proof (wsize_le w) as Hsz.
     remember (4 * S (word_size w))%nat as fuel eqn:Ef.
     destruct fuel as [|fuel]; [lia|]. rewrite eq_expand.
